@@ -99,12 +99,15 @@ func runC13(c *core.Ctx) {
 			for _, msg := range c13Messages {
 				for ri, relay := range relays {
 					for _, epq := range []string{"", "?x=1&y=2"} {
-						for opt := 0; opt < 3; opt++ {
+						for opt := 0; opt < 4; opt++ {
 							heavy := kn == "sp3072" || kn == "sp4096" || kn == "spec384" || kn == "spec521"
 							if !c.Thorough() && heavy && (ri == 1 || opt == 1) {
 								continue
 							}
-							if opt > 0 && !strings.HasPrefix(msg, "authn") {
+							if (opt == 1 || opt == 2) && !strings.HasPrefix(msg, "authn") {
+								continue
+							}
+							if opt == 3 && !strings.HasPrefix(msg, "logout") {
 								continue
 							}
 							kn, method, msg, relay, epq, opt := kn, method, msg, relay, epq, opt
@@ -116,6 +119,68 @@ func runC13(c *core.Ctx) {
 			}
 		}
 	}
+	c13Sequences(c)
+}
+
+// c13Sequences: ONE ServiceProvider value reconfigured between messages (signature method and/or key pair changed), as a long-lived
+// middleware would be. Every message of every sequence is verified against the configuration in force when it was made.
+func c13Sequences(c *core.Ctx) {
+	c.Group("reconfiguration-sequences")
+	type conf struct{ key, method string }
+	confs := []conf{{"sp2048", dsig.RSASHA256SignatureMethod}, {"sp2048", dsig.RSASHA1SignatureMethod}, {"sp2048", dsig.RSASHA512SignatureMethod},
+		{"sp2048", dsig.ECDSASHA256SignatureMethod}, {"sp2048", "urn:example:unknown-signature-method"},
+		{"spec256", dsig.ECDSASHA256SignatureMethod}, {"spec256", dsig.RSASHA256SignatureMethod}, {"sp1024", dsig.RSASHA256SignatureMethod}}
+	maxLen := 3
+	if c.Thorough() {
+		maxLen = 4
+	}
+	var seqs [][]int
+	var gen func(cur []int)
+	gen = func(cur []int) {
+		if len(cur) >= 2 {
+			seqs = append(seqs, append([]int{}, cur...))
+		}
+		if len(cur) == maxLen {
+			return
+		}
+		for i := range confs {
+			gen(append(cur, i))
+		}
+	}
+	gen(nil)
+	for _, sq := range seqs {
+		for mi, last := range c13Messages {
+			for _, firstKind := range []string{"authn-redirect", "logoutresp-post"} {
+				sq, last, firstKind := sq, last, firstKind
+				var names []string
+				for _, ci := range sq {
+					names = append(names, confs[ci].key+":"+shortAlg(confs[ci].method))
+				}
+				key := fmt.Sprintf("seq/%s/first=%s/last=%s", strings.Join(names, ">"), firstKind, last)
+				c.Affinity(mi)
+				c.Case(key, func(t *core.T) {
+					t.NonTrivial()
+					sp := harness.NewSP(harness.SPOpt{SPKey: confs[sq[0]].key, SignMethod: confs[sq[0]].method})
+					for step, ci := range sq {
+						cf := confs[ci]
+						kp := samlgen.Key(cf.key)
+						sp.Key, sp.Certificate, sp.SignatureMethod = kp.Key, kp.Cert, cf.method
+						kind := firstKind
+						if step == len(sq)-1 {
+							kind = last
+						}
+						before := t.Failed()
+						c13Emit(t, sp, cf.key, cf.method, kind, "rs", fmt.Sprintf("%s step %d", key, step+1))
+						if !before && t.Failed() && step > 0 {
+							t.Fail("C13/sequence/"+kind+"/wrong-after-reconfiguration", "%s: step %d (%s with %s) is wrong although the same configuration is right on a fresh ServiceProvider", key, step+1, kind, names[step])
+							return
+						}
+					}
+				})
+			}
+		}
+	}
+	c.Affinity(-1)
 }
 
 func c13One(t *core.T, kn, method, msg, relay, epq string, opt int, key string) {
@@ -129,7 +194,19 @@ func c13One(t *core.T, kn, method, msg, relay, epq string, opt int, key string) 
 	case 2:
 		sp.ForceAuthn = &tr
 		sp.RequestedAuthnContext = &saml.RequestedAuthnContext{Comparison: "exact", AuthnContextClassRef: "urn:oasis:names:tc:SAML:2.0:ac:classes:PasswordProtectedTransport"}
+	case 3:
+		// the IdP's logout endpoints advertise a ResponseLocation different from their Location
+		for i := range sp.IDPMetadata.IDPSSODescriptors {
+			for j := range sp.IDPMetadata.IDPSSODescriptors[i].SingleLogoutServices {
+				sp.IDPMetadata.IDPSSODescriptors[i].SingleLogoutServices[j].ResponseLocation = "https://idp.example.com/saml/slo-return"
+			}
+		}
 	}
+	c13Emit(t, sp, kn, method, msg, relay, key)
+}
+
+// c13Emit makes sp (key fixture kn, configured method) emit one message and verifies it as a peer would.
+func c13Emit(t *core.T, sp *saml.ServiceProvider, kn, method, msg, relay, key string) {
 	kp := samlgen.Key(kn)
 	_, isRSA := kp.Cert.PublicKey.(*rsa.PublicKey)
 	fits := (isRSA && strings.Contains(method, "#rsa-")) || (!isRSA && strings.Contains(method, "#ecdsa-"))
